@@ -14,7 +14,7 @@ REQUIRED = ['C19.ensure1d_accepts_iff', 'C19.ensure1d_rejects_iff', 'C19.ensure1
             'C19.ensureEqualDims_iff', 'C19.ensureEqualDims_axis_iff', 'C19.ensure_preserves_size',
             'C19.ensureAll_iff', 'C19.ensure1d_two_columns_current', 'C19.ensure1d_one_sample_current',
             'C19.ensureVector_nd_current',
-            'C19.spectra_shape_checks_are_support_routines', 'C19.spectra_shape_checks_empty_list_differ']
+            'C19.spectra_shape_checks_are_support_routines', 'C19.ensure_equal_dims_empty_list']
 TRUSTED = [
     'PARTIAL (instance-only): that no routine modifies its input arrays / option dictionaries, that accepted layouts give '
     'bitwise identical values, that read-only arrays are accepted and that a repeated deterministic call is identical are facts '
@@ -182,7 +182,8 @@ class EnsureLists(Stream):
 
     def corpus(self):
         return [{'shapes': s} for s in ([[7], [7, 2]], [[7, 2], [7]], [[7, 1], [6, 1]], [[7, 2, 3], [7, 2]], [[7], [7], [8]],
-                                        [[7, 3], [7, 3, 2], [7, 3, 2]], [[], [3]], [[3], []])]
+                                        [[7, 3], [7, 3, 2], [7, 3, 2]], [[], [3]], [[3], []])] + [
+            {'shapes': []}]     # no array at all: IndexError for dim=None, silent pass for a given dim (C19.ensure_equal_dims_empty_list)
 
     def generate(self, rng, tier):
         dims = [1, 2, 3, N] if tier == 'thorough' else [1, 2, N]
